@@ -145,10 +145,10 @@ class Gen:
     def weights(self):
         base = {"decl": 5, "assign": 6, "print": 5, "if": 4, "for": 3, "rangeint": 2, "rangearr": 2, "switch": 2, "call": 4,
                 "closure": 3, "defer": 1, "panic": 0.4, "return": 0.6, "break": 1, "continue": 1, "swap": 2, "ptr": 2, "struct": 2,
-                "method": 2, "iface": 2, "generic": 2, "rangefunc": 2, "fault": 0, "recoverblock": 0.5, "goexit": 0, "gowait": 0.2, "arrset": 2}
+                "method": 2, "iface": 2, "generic": 2, "rangefunc": 2, "zerodecl": 2, "deferafter": 0, "defersandwich": 0, "fault": 0, "recoverblock": 0.5, "goexit": 0, "gowait": 0.2, "arrset": 2}
         if self.profile == "defer":
             base.update({"defer": 9, "panic": 2.5, "return": 2, "recoverblock": 4, "fault": 1.5, "goexit": 0.6, "gowait": 1.0,
-                         "closure": 1, "switch": 0.5, "rangearr": 0.5, "struct": 0.5, "method": 0.5, "iface": 0.3, "generic": 0.4, "rangefunc": 3})
+                         "closure": 1, "switch": 0.5, "rangearr": 0.5, "struct": 0.5, "method": 0.5, "iface": 0.3, "generic": 0.4, "rangefunc": 3, "deferafter": 3, "defersandwich": 2})
         if self.profile == "faults":
             base.update({"fault": 6, "recoverblock": 5, "defer": 3, "panic": 1, "ptr": 3})
         if self.in_lib(self.cur_fi):
@@ -159,7 +159,7 @@ class Gen:
         r = self.r
         w = self.weights()
         if depth <= 0:
-            for k in ("if", "for", "rangeint", "rangearr", "rangefunc", "switch", "closure", "recoverblock", "gowait"):
+            for k in ("if", "for", "rangeint", "rangearr", "rangefunc", "switch", "closure", "recoverblock", "gowait", "defersandwich"):
                 w[k] = 0
         if not ctx.get("loop"):
             w["break"] = w["continue"] = 0
@@ -317,6 +317,51 @@ class Gen:
             return self.method_stmts(sc)
         if k == "iface":
             return self.iface_stmts(sc)
+        if k == "deferafter":
+            # a defer statement behind a call that may panic: it must not run when the call panicked
+            self.features.add("defer-after-panicking-call")
+            first = [("defer", ("call", ("fn", self.helper_name("dp", self.cur_fi)), [I(r.randint(1, 9)), self.int_expr(sc, 1)]))] if r.random() < 0.7 else []
+            mid = ("expr", ("call", ("fn", self.helper_name("mp", self.cur_fi)), [self.int_expr(sc, 1) if r.random() < 0.6 else I(r.randint(0, 3))]))
+            c = r.random()
+            if c < 0.4:
+                last = ("defer", ("call", ("fn", self.helper_name("nop", self.cur_fi)), []))
+            elif c < 0.7:
+                last = ("defer", ("call", ("fn", self.helper_name("dp", self.cur_fi)), [I(r.randint(1, 9)), self.int_expr(sc, 1)]))
+            else:
+                last = ("defer", ("call", ("clo", ("funclit", {"name": "", "params": [], "results": [], "body": [("print", [("str", "dl")])]})), []))
+            return first + [mid, last]
+        if k == "defersandwich" and depth > 0:
+            # loop defers, a defer without arguments, loop defers: strict last-in-first-out across all three
+            self.features.add("defer-between-loops")
+            def loop(tag):
+                i = self.var("i")
+                return ("for", None, ("decl", i, "int", I(0)), ("bin", "<", V(i), I(r.randint(1, 2))), ("assign", [V(i)], [("bin", "+", V(i), I(1))]),
+                        [("defer", ("call", ("fn", self.helper_name("dp", self.cur_fi)), [I(tag), V(i)]))])
+            midk = r.random()
+            if midk < 0.6:
+                mid = ("defer", ("call", ("fn", self.helper_name("nop", self.cur_fi)), []))
+            else:
+                mid = ("defer", ("call", ("fn", self.helper_name("dp", self.cur_fi)), [I(5), I(5)]))
+            return [loop(1), mid, loop(2)]
+        if k == "zerodecl":
+            # a declaration without initialiser is executed (and zeroes the variable) every time control passes it,
+            # e.g. once per loop iteration: read it before writing it
+            self.features.add("zero-declared-local")
+            if r.random() < 0.6 or self.in_lib(self.cur_fi):
+                z = self.var("z")
+                sc[z] = ARR
+                return [("decl", z, ARR, None),
+                        ("print", [("str", "zd"), ("index", V(z), I(r.randint(0, 2))), ("index", V(z), I(r.randint(0, 2)))]),
+                        ("assign", [("index", V(z), I(r.randint(0, 2)))], [("bin", "+", self.int_expr(sc, 1), I(1))]),
+                        ("assign", [("index", V(z), I(r.randint(0, 2)))], [I(r.randint(1, 9))])]
+            self.ensure_types()
+            P = self.pf + "P"
+            z = self.var("zs")
+            sc[z] = ("struct", P)
+            return [("decl", z, ("struct", P), None),
+                    ("print", [("str", "zs"), ("field", V(z), "a"), ("field", V(z), "b")]),
+                    ("assign", [("field", V(z), "a")], [("bin", "+", self.int_expr(sc, 1), I(1))]),
+                    ("assign", [("field", V(z), "b")], [I(r.randint(1, 9))])]
         if k == "generic":
             return self.generic_stmts(sc)
         if k == "rangefunc":
@@ -347,7 +392,7 @@ class Gen:
             # func() { defer func() { r := recover(); print }(); body }()
             rv = self.var("rc")
             body_sc = dict(sc)
-            inner = self.stmts(body_sc, fi, depth - 1, 3, {"fn": None})
+            inner = self.stmts(body_sc, fi, depth - 1, 3, {"fn": None, "ingo": ctx.get("ingo")})
             dlit = {"name": "", "params": [], "results": [], "body": [("decl", rv, "int", I(0)), ("recover", rv), ("print", [("str", "rec"), V(rv)])]}
             lit = {"name": "", "params": [], "results": [], "body": [("defer", ("call", ("clo", ("funclit", dlit)), []))] + inner}
             self.features.add("recover")
@@ -703,6 +748,11 @@ class Gen:
                                "body": [("print", [("str", "d"), V("k"), V("v")])]})
             self.funcs.append({"name": pre + "helper", "params": [], "results": [], "lib": lib,
                                "body": [("decl", hv, "int", I(0)), ("recover", hv), ("print", [("str", "h"), V(hv)])]})
+            self.funcs.append({"name": pre + "nop", "params": [], "results": [], "lib": lib, "noinline": True,
+                               "body": [("print", [("str", "n")])]})
+            self.funcs.append({"name": pre + "mp", "params": [("c", "int")], "results": [], "lib": lib, "noinline": True,
+                               "body": [("if", ("bin", "==", ("bin", "%", ("bin", "+", ("bin", "%", V("c"), I(2)), I(2)), I(2)), I(1)),
+                                         [("panic", ("bin", "+", ("bin", "%", ("bin", "+", ("bin", "%", V("c"), I(9)), I(9)), I(9)), I(40)))], [])]})
         for j in reversed(range(self.nfuncs)):
             np_, nr = self.sigs[j]
             params = [(self.var("a"), "int") for _ in range(np_)]
@@ -778,4 +828,47 @@ def fixed_cases(profile):
             ("decl", "a", "int", ("call", ("fn", pf + "g"), [I(2)])), ("print", [("str", "a"), V("a")]),
             ("decl", "b", "int", ("call", ("fn", pf + "g"), [I(3)])), ("print", [("str", "b"), V("b")])]}
         case(100003, "anchor-lifo-args-namedresult", [dp, g, f0], pf + "f0")
+        # F4: a defer statement that was never reached (a call before it panicked) must not run
+        pf = "c100004_"
+        dp = {"name": pf + "dp", "params": [("k", "int"), ("v", "int")], "results": [], "body": [("print", [("str", "d"), V("k"), V("v")])]}
+        nop = {"name": pf + "nop", "params": [], "results": [], "noinline": True, "body": [("print", [("str", "n")])]}
+        mp = {"name": pf + "mp", "params": [("c", "int")], "results": [], "noinline": True,
+              "body": [("if", ("bin", "==", V("c"), I(1)), [("panic", I(41))], [])]}
+        rl = _lit([("decl", "rc", "int", I(0)), ("recover", "rc"), ("print", [("str", "rec"), V("rc")])])
+        g = {"name": pf + "g", "params": [("c", "int")], "results": [], "body": [
+            ("defer", ("call", ("clo", ("funclit", rl)), [])),
+            ("defer", ("call", ("fn", pf + "dp"), [I(1), I(0)])),
+            ("expr", ("call", ("fn", pf + "mp"), [V("c")])),
+            ("defer", ("call", ("fn", pf + "nop"), [])),
+            ("expr", ("call", ("fn", pf + "mp"), [("bin", "-", V("c"), I(1))])),
+            ("defer", ("call", ("fn", pf + "dp"), [I(2), I(7)]))]}
+        f0 = {"name": pf + "f0", "params": [], "results": [], "body": [
+            ("expr", ("call", ("fn", pf + "g"), [I(1)])), ("print", [("str", "--")]),
+            ("expr", ("call", ("fn", pf + "g"), [I(2)])), ("print", [("str", "--")]),
+            ("expr", ("call", ("fn", pf + "g"), [I(0)]))]}
+        case(100004, "unreached-defer-does-not-run", [dp, nop, mp, g, f0], pf + "f0")
+        # F5: loop defers, a defer without arguments, loop defers: one last-in-first-out order
+        pf = "c100005_"
+        dp = {"name": pf + "dp", "params": [("k", "int"), ("v", "int")], "results": [], "body": [("print", [("str", "d"), V("k"), V("v")])]}
+        nop = {"name": pf + "nop", "params": [], "results": [], "noinline": True, "body": [("print", [("str", "n")])]}
+        mkloop = lambda tag, iv: ("for", None, ("decl", iv, "int", I(0)), ("bin", "<", V(iv), I(2)), ("assign", [V(iv)], [("bin", "+", V(iv), I(1))]),
+                                 [("defer", ("call", ("fn", pf + "dp"), [I(tag), V(iv)]))])
+        f0 = {"name": pf + "f0", "params": [], "results": [], "body": [
+            mkloop(1, "i"), ("defer", ("call", ("fn", pf + "nop"), [])), mkloop(2, "j"),
+            ("defer", ("call", ("fn", pf + "nop"), [])), mkloop(3, "k")]}
+        case(100005, "defer-between-loops-lifo", [dp, nop, f0], pf + "f0")
+        # F6: Goexit in an inner frame; a deferred call panics, an earlier-registered one recovers: the goroutine still exits
+        pf = "c100006_"
+        rl = _lit([("decl", "rc", "int", I(0)), ("recover", "rc"), ("print", [("str", "rec"), V("rc")])])
+        pl = _lit([("print", [("str", "dp2")]), ("panic", I(61))])
+        inner = {"name": pf + "inner", "params": [], "results": [], "body": [
+            ("defer", ("call", ("clo", ("funclit", rl)), [])),
+            ("defer", ("call", ("clo", ("funclit", pl)), [])),
+            ("goexit",), ("print", [("str", "unreachable")])]}
+        body = {"name": pf + "body", "params": [], "results": [], "body": [
+            ("defer", ("call", ("clo", ("funclit", _lit([("print", [("str", "body-deferred")])]))), [])),
+            ("expr", ("call", ("fn", pf + "inner"), [])), ("print", [("str", "after-inner")])]}
+        f0 = {"name": pf + "f0", "params": [], "results": [], "body": [
+            ("gowait", ("call", ("fn", pf + "body"), [])), ("print", [("str", "main-after")])]}
+        case(100006, "goexit-survives-recovered-panic", [inner, body, f0], pf + "f0")
     return out
